@@ -97,6 +97,28 @@ R = {
     "C14-r5B": ("cli.rs: a --seed value equal to the OUTPUT path is dropped from the seeds and switches --seed-output on",
                 "the existing output also named as a seed, no -f / --seed-output", ["C14", "C02"],
                 "the clone option sets of l1 opts (model parseClone, seeds naming the output among them) were added after reading this change, before the first run"),
+    # round 6: state carried between calls / phases / runs, sizes beyond internal thresholds, device kinds
+    "C03-r6A": ("clone_output.rs: the Copy step moves a chunk through the scratch buffer in 1 MiB blocks (a forward memcpy on ranges that overlap themselves)",
+                "--seed-output and a reusable chunk > 1 MiB moving towards the end by less than its own size", ["C03", "C13"],
+                "MISSED at first (no large chunk was ever moved onto itself): c13_writes now has rows with 4 KiB inserted in front of 9 MiB chunked at 2-8 MiB"),
+    "C03-r6B": ("chunk_index.rs build_reorder_ops: a `queued` set skips pushing a child that already waits on the DFS stack",
+                "a destination covering two reusable chunks one of which moves onto the other", ["C03", "C13"], "caught at once"),
+    "C06-r6A": ("src/clone_cmd.rs: `metadata().len() > 0` guard before the --seed-output scan (a block device reports 0)",
+                "a REAL block device as output (the is_block_dev hook does not change what metadata() says)", ["C06"],
+                "MISSED at first (block devices were only exercised through the hook): c02_seeds now clones in place onto real loop devices when it can attach one"),
+    "C06-r6B": ("chunk_index.rs: `if !visited.insert(h)` marks a child as expanded when it is pushed: no Copy for it, it is fetched instead",
+                "prior output as seed, a moving chunk whose destination overlaps another needed chunk", ["C06", "C03"], "caught at once"),
+    "C08-r6A": ("io_reader.rs IoChunkReader: buffer grown in 1 MiB blocks by min(chunk size, 1 MiB) instead of what is still missing",
+                "a range larger than 1 MiB that is not a multiple of it", ["C08"],
+                "MISSED at first (local ranges up to 4000 bytes): c08-io now reads ranges of 1 MiB +- 1, 1.5 MiB, 2 MiB + x under whole and fragmented reads"),
+    "C08-r6B": ("http_reader.rs: the range list sorted before the reader is built", "a list that is not ascending by offset", ["C08", "C17"], "caught at once"),
+    "C12-r6A": ("src/compress_cmd.rs: output opened with create(true) - truncate lost for --force-create",
+                "--force-create over a longer existing archive", ["C12", "C11"], "caught at once (the leftovers row of round 4)"),
+    "C12-r6B": ("build.rs / chunk_dictionary.rs: the metadata map regenerated as a HashMap", "two or more metadata entries", ["C12", "C11"], "caught at once"),
+    "C13-r6A": ("clone_output.rs: a write cursor that starts at 0 although the output scan moved the handle (as C02-r4B, found independently)",
+                "--seed-output, first write at offset 0, nothing moved before", ["C13", "C05"], "caught at once"),
+    "C13-r6B": ("src/clone_cmd.rs: the in-place reorder moved after the seed phases (as C03-r2B, found independently)",
+                "--seed-output together with --seed or stdin", ["C13", "C03", "C02"], "caught at once"),
 }
 
 
@@ -106,7 +128,7 @@ def main():
         mp = "/verif/seeded/%s/meta.json" % sid
         if os.path.exists(mp):
             m = json.load(open(mp))
-            m.update(dict(round=5 if "-r5" in sid else 4, change=change, what_it_needs=needs, breaks=sid[:3], caught_by=caught,
+            m.update(dict(round=int(sid.split("-r")[1][0]), change=change, what_it_needs=needs, breaks=sid[:3], caught_by=caught,
                           history=history or "caught at once",
                           what_was_run="tools/confirm_seeded.py --dir <scratch worktree> (build, 92 tests with the patch, demonstration fails with / "
                                        "passes without); tools/try_patch.py in a private mount namespace (a clone of /repo bound over /repo, a copy of /verif)"))
